@@ -102,6 +102,21 @@ func mkEvalCase(sp *EvalSpec) evalOutcome {
 	b := rc.Build()
 	b.setKeys(sp.Tree, rc.Undefined)
 	src := sp.Tree.Src()
+	if hashStr(src)%3 == 0 {
+		// the configuration object has compiled something else before: a source whose directives switch the optimisations
+		// the other way round. Directives hold for their own compilation only, so nothing below may change
+		flip := "true"
+		for _, v := range rc.Opts {
+			if v {
+				flip = "false"
+			}
+		}
+		if len(rc.Opts) == 0 {
+			flip = "false"
+		}
+		compileSafe(b.Conf, ";;;; optimize: "+flip+"\n(+ 1 (* 2 3))")
+		b.CompileLog.Log = nil
+	}
 	e, err, pan := compileSafe(b.Conf, src)
 	if pan != nil {
 		return evalOutcome{CompileP: pan, Skipped: fmt.Sprintf("Compile panicked: %v on %s", pan, src)}
@@ -295,7 +310,7 @@ func init() {
 		Rule: "random typed expression trees (all operator families and aliases, if, literals, lists, registered operators incl. zero-operand and failing ones, failing variables, wrong-typed operands, and/or with 0..127 operands) rendered to source, compiled with all optimisations disabled, evaluated under random bindings with a recording fetcher; Go's result/error and its ordered fetch/operator-call effects are compared with the reference semantics `sem` of the model (and the model's compile/run with Go's exported program); every Eval case is repeated through the library's own context (NewCtxFromVars) with the same values bound as int, int32, int8, uint8, uint64, []int, []int32; string variables against string literals and a string constant of the configuration; list-valued variables under in/overlap and as results; non-trivial = at least one effect or more than 3 nodes; distinct = distinct (source, config, binding)",
 		Assumptions: []string{"fetcher and registered operators are deterministic functions of their arguments (the harness's recording fetcher and test operators are)",
 			"errors are compared by class and identity of the user error, not by message text"},
-		Behav: []int{5, 2}, Fidelity: []int{3, 4, 8, 10, 15}, Ignore: []int{50, 1, 6, 7}, CodeText: evalCodeText,
+		Behav: []int{5, 2, 15}, Fidelity: []int{3, 4, 8, 10}, Ignore: []int{50, 1, 6, 7}, CodeText: evalCodeText,
 		Gen: genC01,
 	})
 }
@@ -750,6 +765,18 @@ func libraryCtxCase(c *RunCtx, r *Rand) {
 	}
 	if r.Intn(3) == 0 {
 		conf.VariableKeyMap["far"] = 300 // a key beyond the key-indexed fetcher's range: the name-indexed fetcher is chosen
+	} else if r.Bool() {
+		// key 0 is a legal key the caller may choose (iota-style constants): the variable holding the LARGEST key moves
+		// there, so that no key inside the key-indexed fetcher's range is left free for the late registrations below
+		top, topKey := "", eval.VariableKey(-1)
+		for n, k := range conf.VariableKeyMap {
+			if k > topKey {
+				top, topKey = n, k
+			}
+		}
+		if top != "" {
+			conf.VariableKeyMap[top] = 0
+		}
 	}
 	// registered variables the caller does not supply: unavailable under the name-indexed fetcher, nil under the
 	// key-indexed one (whichever NewCtxFromVars picks)
